@@ -152,13 +152,10 @@ def check(R, F, P, cfg):
 
     # ---- R9.5 constants ---------------------------------------------------------------------------------------------------------
     R.doc("R9.5", "weak counter constants: MAX = COUNTER_MASK = 32767, ACCESSIBLE_MASK = 32768, disjoint; initial values")
-    mx = F.const("weak::weak_counter_marker::MAX")
-    cm_ = F.const("weak::weak_counter_marker::COUNTER_MASK")
-    am = F.const("weak::weak_counter_marker::ACCESSIBLE_MASK")
-    iv = F.const("weak::weak_counter_marker::INITIAL_VALUE")
-    iva = F.const("weak::weak_counter_marker::INITIAL_VALUE_ACCESSIBLE")
-    ok = mx == 32767 and cm_ == 32767 and am == 32768 and (cm_ & am) == 0 and (cm_ | am) == 0xFFFF and iv == 0 and iva == am
-    R.inst("R9.5", "weak-constants", ok, "MAX=%s COUNTER_MASK=%s ACCESSIBLE_MASK=%s INITIAL=%s INITIAL_ACCESSIBLE=%s" % (mx, cm_, am, iv, iva), cfg=cfg, nontrivial=False)
+    _L = word_layout(F)   # read from the using functions: counter() mask, increment limit, is_accessible() flag, values new() stores
+    mx, cm_, am, wi = _L["WMAX"], _L["WCMASK"], _L["AM"], _L["WINIT"] or []
+    ok = mx == 32767 and cm_ == 32767 and am == 32768 and (cm_ & am) == 0 and (cm_ | am) == 0xFFFF and set(wi) == {0, am}
+    R.inst("R9.5", "weak-constants", ok, "limit=%s counter mask=%s accessible flag=%s initial values=%s" % (mx, cm_, am, wi), cfg=cfg, nontrivial=False)
 
 
 def _record_of(e):
